@@ -235,6 +235,8 @@ def _state_ns(ev):
 
 
 NE_DEFS = {
+    "LN0()": "min(last_index_of(old(self.buffer), b'\\n') if has(old(self.buffer), b'\\n') else len(old(self.buffer)), "
+             "last_index_of(old(self.buffer), b'\\r') if has(old(self.buffer), b'\\r') else len(old(self.buffer)))",
     "is_data()": "not is_need()",
     "is_need()": "result == NEED",
     "delim()": "m.lb + b'--' + self.boundary + m.g1",
@@ -272,6 +274,10 @@ NEXT_EVENT_DATA = Contract(
         "last.conservation": "implies(is_data() and not result.more_data, m.found and "
                              "old(self.buffer) == result.data + delim() + self.buffer)",
         "last.next_state": "implies(is_data() and not result.more_data, self.state == (3 if m.g1.startswith(b'--') else 1))",
+        # progress: without a complete delimiter in the buffer, EVERYTHING before the hold-back point (the earlier of the last
+        # CR and the last LF, or the end) is released now - whether or not the text '--boundary' occurs somewhere in the content
+        "no_match.releases_up_to_the_hold_back_point": "implies(not m.found, (is_need() and LN0() == 0) or "
+                                                       "(is_data() and result.more_data and len(result.data) == LN0()))",
         # a chunk released while the part goes on never contains the start of a delimiter that later bytes could complete
         "more.released_bytes_are_safe": "implies(is_data() and result.more_data and 0 <= gi and gi < len(result.data), not partial0(gi))",
     },
